@@ -124,6 +124,15 @@ CHECKS["C08"] = dict(
     note="trusted: renderer (literals in the convention in force), projection, TLC; the decimal separator is never empty in the claimed configurations",
     ref="7 C08")
 
+CHECKS["C15"] = dict(
+    technique="recorded (printed form, printed form after typing it back) pairs of the real library validated by TLC against Trace.tla's roundtrip step; TLA+ round-trip lemmas (MC_Duration!ReadBack, MC_Radix, MC_Clock, MC_Calendar) model-checked by TLC",
+    text="The specification is thin here (a relation between two runs of the code): TLC validates for every recorded pair that the kind is one the statement lists and that both printed forms "
+         "are equal, and model-checks on the specification where print-then-read is the identity at all (ReadBack: exactly when the duration printer does not emit '12 months'). Values of every "
+         "kind (numbers on rounding boundaries, percentages, money in currencies whose symbol reads back, durations with carries, zoned times, dates incl. the current year, all 33 units, based "
+         "integers) x 12 (thorough 24) separator / digit / removal configurations x en, tr.",
+    note="trusted: harness feeding the first output back verbatim, TLC; value lists are finite; date-times and the empty print of a zero duration are outside the statement",
+    ref="7 C15")
+
 NOT_YET = {
 }
 
